@@ -107,7 +107,7 @@ theorem C12_get_resolution (cfg : Cfg) (s : St) (n : Name) :
         cases cfg.fallback.isSome <;> cases cfg.factory.isSome <;> simp [h, Reg.set_abs]
 
 /-- `get` returns a client exactly when `resolve` names one, and it is that client. -/
-theorem get_resolve (cfg : Cfg) (s : St) (n : Name) :
+theorem C12_get_agrees_with_resolve (cfg : Cfg) (s : St) (n : Name) :
     (∀ c, resolve cfg s n = some c → ∃ src, (get cfg s n).2 = .got c src) ∧
     (resolve cfg s n = none → (get cfg s n).2 = .notFound) := by
   have h := C12_get_resolution cfg s n
@@ -134,7 +134,7 @@ theorem C12_forward_unary (cfg : Cfg) (s : St) (n : Name) (method req : Tok)
       forwardUnary (get cfg s n).2 method req child = ([⟨c, method, req⟩], child c method req)) ∧
     (resolve cfg s n = none →
       forwardUnary (get cfg s n).2 method req child = ([], .err notFoundTok)) := by
-  obtain ⟨h1, h2⟩ := get_resolve cfg s n
+  obtain ⟨h1, h2⟩ := C12_get_agrees_with_resolve cfg s n
   constructor
   · intro c hc; obtain ⟨src, hs⟩ := h1 c hc; simp [hs, forwardUnary]
   · intro hn; simp [h2 hn, forwardUnary]
@@ -147,7 +147,7 @@ theorem C12_forward_stream_call (cfg : Cfg) (s : St) (n : Name) (method req : To
       (forwardStream (get cfg s n).2 method req cs k).calls = [⟨c, method, req⟩]) ∧
     (resolve cfg s n = none →
       forwardStream (get cfg s n).2 method req cs k = ⟨[], none, [], 0, 0, none, some notFoundTok, false⟩) := by
-  obtain ⟨h1, h2⟩ := get_resolve cfg s n
+  obtain ⟨h1, h2⟩ := C12_get_agrees_with_resolve cfg s n
   constructor
   · intro c hc; obtain ⟨src, hs⟩ := h1 c hc
     simp only [hs, forwardStream]
@@ -289,6 +289,24 @@ theorem C12_single_commit_total (cfg : Cfg) (reg0 : Reg) (k1 k2 : Nat) (names : 
       obtain ⟨k, hk⟩ := h.done_fb t cl hd
       simp [hfb, supplies] at hk
     · rw [← hn]; exact h.done_reg t cl src hd hs
+
+/-- **Get is wait-free**: under every schedule, a thread that has been scheduled five times has
+finished its `Get` (no thread can be locked out or delayed by the others; each lock-delimited section
+is one step and no step waits for another thread). -/
+theorem C12_get_wait_free (cfg : Cfg) (reg0 : Reg) (k1 k2 : Nat) (names : Nat → Name) (sched : List Nat)
+    (t : Nat) (h : 5 ≤ sched.count t) :
+    ∃ r, ((crun cfg (Conf.start reg0 k1 k2 names) sched).th t).pc = .done r := by
+  have hr := crun_rank cfg (Conf.start reg0 k1 k2 names) sched t
+  have h0 : ((Conf.start reg0 k1 k2 names).th t).pc.rank = 5 := rfl
+  rw [h0] at hr
+  have hz : ((crun cfg (Conf.start reg0 k1 k2 names) sched).th t).pc.rank = 0 := by omega
+  cases hpc : ((crun cfg (Conf.start reg0 k1 k2 names) sched).th t).pc with
+  | done r => exact ⟨r, rfl⟩
+  | lookup => rw [hpc] at hz; simp [PC.rank] at hz
+  | fallback => rw [hpc] at hz; simp [PC.rank] at hz
+  | factory => rw [hpc] at hz; simp [PC.rank] at hz
+  | insert c => rw [hpc] at hz; simp [PC.rank] at hz
+  | notify c => rw [hpc] at hz; simp [PC.rank] at hz
 
 /-- A single thread running alone performs exactly the sequential `get` (the interleaving model
 extends the sequential one): five of its steps from `lookup` reach `done` with `get`'s result and state. -/
